@@ -3,6 +3,7 @@
 package main
 
 import (
+	"reflect"
 	"os"
 	"context"
 	"encoding/json"
@@ -301,9 +302,18 @@ func (sc *sched) pending() []*opResult {
 }
 
 func (sc *sched) queueLens() map[string]int {
-	s := sc.e.s
-	return map[string]int{"add": len(s.addChan), "remove": len(s.removeChan), "update": len(s.updateChan), "setadmin": len(s.setAdminChan),
-		"list": len(s.listChan), "listfull": len(s.listFullChan), "auth": len(s.authenticateChan), "check": len(s.checkChan)}
+	// by reflection: the report survives a request queue being renamed or removed (the harness must still build then)
+	out := map[string]int{}
+	v := reflect.ValueOf(sc.e.s).Elem()
+	for name, field := range map[string]string{"add": "addChan", "remove": "removeChan", "update": "updateChan", "setadmin": "setAdminChan",
+		"list": "listChan", "listfull": "listFullChan", "auth": "authenticateChan", "check": "checkChan"} {
+		if f := v.FieldByName(field); f.IsValid() && f.Kind() == reflect.Chan {
+			out[name] = f.Len()
+		} else {
+			out[name] = -1
+		}
+	}
+	return out
 }
 
 // settle: wait for quiescence; a request still unanswered after 2 h of virtual time with
